@@ -28,6 +28,7 @@
 import EnrVerif.Proofs.StepLemmas
 import EnrVerif.Proofs.ToyScheme
 import EnrVerif.Proofs.SchemeLemmas
+import EnrVerif.Proofs.BuilderReuse
 
 namespace EnrVerif
 
@@ -225,6 +226,36 @@ example : Valid tinyS r2 ∧ tinyS.enrToPublic r2.content = .ok pk1 ∧ r2.nodeI
 example : Valid tinyS (run tinyS r0 [call1, call2 r1, call3]) :=
   run_valid tinyS tinyS_lawful r0 _ r0_valid run_ok
 
+/-! ### a builder that is used again
+
+`Builder::build(&mut self, key)` writes the identity scheme and the signer's public key into the
+builder before it validates and signs; `Builder.afterBuild` is the builder after any call of
+`build`.  Using it again gives exactly what a fresh builder would give. -/
+
+/-- a second build with the same key: the builder's own mutation is invisible -/
+theorem build_again_same_key (S : Scheme) (b : Builder) (pk : S.PK) (o : Option Bytes)
+    (hs : Map.Sorted b.content) :
+    Builder.build S (Builder.afterBuild S b pk) pk o = Builder.build S b pk o :=
+  build_afterBuild_same S b pk o hs
+
+/-- a build with another key of the same scheme: the earlier build left no trace -/
+theorem build_again_other_key (S : Scheme) (hL : S.Lawful) (b : Builder) (pk pk' : S.PK)
+    (o : Option Bytes) (hs : Map.Sorted b.content) (hk : S.enrKey pk = S.enrKey pk') :
+    Builder.build S (Builder.afterBuild S b pk) pk' o = Builder.build S b pk' o :=
+  build_afterBuild_other S hL b pk pk' o hs hk
+
+/-- whatever was built before, a record handed out by a reused builder is valid -/
+theorem build_reused_is_valid (S : Scheme) (hL : S.Lawful) (b : Builder) (pk pk' : S.PK)
+    (o : Option Bytes) (r : Record) (hb : b.WF) (hk : KeyOK S pk) (hk' : KeyOK S pk')
+    (hso : ∀ b', Builder.prepare S (Builder.afterBuild S b pk) pk' = .ok b' →
+      SigOK S pk' b'.rlpContent o)
+    (h : Builder.build S (Builder.afterBuild S b pk) pk' o = .ok r) :
+    Valid S r ∧ S.enrToPublic r.content = .ok pk' ∧ r.nodeId = nodeIdOf S pk' :=
+  build_reused_valid S hL b pk pk' o r hb hk hk' hso h
+
+#print axioms build_again_same_key
+#print axioms build_again_other_key
+#print axioms build_reused_is_valid
 #print axioms step_valid
 #print axioms step_rekey
 #print axioms step_valid_any
